@@ -524,7 +524,7 @@ def realize_mcmc(case):
     kms = u.km / u.s
     N, L = g["N"], 1 + g["poly"] + g["noff"]
     ev = {"ev": "Mcmc", "fam": "C11", "x": [[101 + k, 1] for k in range(L)], "curve": [], "lnlikeok": False, "initok": False, "kf": "",
-          "obsok": False, "freeok": False}
+          "obsok": False, "freeok": False, "termsok": False}
     try:
         data, prior, target, decoy, order, slot_names = build(g, ua, case.get("jitter_kind", "sampled"))
         events[0]["via_default"] = bool(getattr(prior, "_verif_via_default", False))
@@ -554,9 +554,15 @@ def realize_mcmc(case):
         joker = TheJoker(prior)
         from thejoker.data_helpers import validate_prepare_data
         merged = validate_prepare_data(data, g["poly"], g["noff"])[0]
+        free_before = sorted(v.name for v in prior.model.free_RVs)
+        pot_before = sorted(v.name for v in prior.model.potentials)       # the angles of JokerPrior.default bring their own
         with prior.model:
             init = joker.setup_mcmc(data, smp)
         m = prior.model
+        # the model's total log-density is the sum over its basic random variables and potentials: setup_mcmc may add exactly one
+        # observed node (the data term) and nothing else that carries density (no new free variable, no potential)
+        ev["termsok"] = bool(sorted(v.name for v in m.free_RVs) == free_before and len(m.observed_RVs) == 1
+                             and sorted(v.name for v in m.potentials) == pot_before)
         p = prior.pars
         # initial point: the chosen sample in the PRIOR's units
         tgt = {}
